@@ -20,7 +20,7 @@ from typing import Dict, List, Optional, Set, Tuple
 
 from oqv.astutil import branch_context, call_name, method_call
 from oqv.cfg import CFG
-from oqv.dataflow import DefUse
+from oqv.dataflow import DefUse, expand, origin, origin_text
 from oqv.model import AnalysisError, Program, Unit, dotted, norm, walk_local
 from oqv.report import Check
 
@@ -154,6 +154,12 @@ def m2(prog: Program, chk: Check) -> None:
             ok, "" if ok else "not every bond leg is closed with its own cap")
 
 
+def _is_elem_of(e: ast.AST, what: str) -> bool:
+    """e is ELEM(<iterable mentioning `what`>) in origin form."""
+    return isinstance(e, ast.Call) and isinstance(e.func, ast.Name) and e.func.id == "ELEM" \
+        and e.args and what in norm(e.args[0])
+
+
 def m3(prog: Program, chk: Check) -> None:
     chk.rule("M3", "input guards of the contraction: each process tensor has the system's Hilbert "
              "dimension, all time steps agree, num_steps is bounded by the shortest process "
@@ -161,29 +167,59 @@ def m3(prog: Program, chk: Check) -> None:
     u = prog.unit(f"{SD}:_compute_dynamics_input_parse")
     du = DefUse(u, CFG(u.node, exc_edges=False))
     chk.saw(u, du.cfg)
-    checks = [norm(c.args[0]) for c in walk_local(u.node) if isinstance(c, ast.Call)
-              and call_name(c) == "check_true" and c.args]
-    loop = [x for x in walk_local(u.node) if isinstance(x, ast.For) and norm(x.iter) == "process_tensors"]
-    in_loop = set()
-    if loop:
-        in_loop = {norm(c.args[0]) for c in ast.walk(loop[0]) if isinstance(c, ast.Call)
-                   and call_name(c) == "check_true" and c.args}
-    ok = "hs_dim == pt.hilbert_space_dimension" in in_loop or \
-        "pt.hilbert_space_dimension == hs_dim" in in_loop
+    # all guards are read in origin form: local names are replaced by where their values come
+    # from (an element of the process-tensor list is ELEM(..process_tensor..))
+    guards = []
+    for c in walk_local(u.node):
+        if isinstance(c, ast.Call) and call_name(c) == "check_true" and c.args:
+            guards.append((c, origin(du, du.node_of(c), c.args[0])))
+
+    def eq_sides(o):
+        if isinstance(o, ast.Compare) and len(o.ops) == 1 and isinstance(o.ops[0], ast.Eq):
+            return [(o.left, o.comparators[0]), (o.comparators[0], o.left)]
+        return []
+    ok = any(isinstance(a, ast.Attribute) and a.attr == "hilbert_space_dimension"
+             and _is_elem_of(a.value, "process_tensor") and norm(b) == "system.dimension"
+             for (_, o) in guards for (a, b) in eq_sides(o))
     chk.add("M3", u, "every process tensor: Hilbert dimension equals the system's", ok,
             "" if ok else "a process tensor of another dimension is contracted")
-    ok = any("pt.dt" in c and "dt" in c.replace("pt.dt", "") and "==" in c for c in in_loop)
+    ok = any(isinstance(a, ast.Attribute) and a.attr == "dt"
+             and _is_elem_of(a.value, "process_tensor")
+             and any(isinstance(y, ast.Name) and y.id == "dt" for y in ast.walk(b))
+             for (_, o) in guards for (a, b) in eq_sides(o))
     chk.add("M3", u, "every process tensor: pt.dt == dt", ok,
             "" if ok else "process tensors with different time steps are combined")
-    ok = any("num_steps <= max_step" in c for c in checks)
-    ms = [st for st in walk_local(u.node) if isinstance(st, ast.Assign)
-          and dotted(st.targets[0]) == "max_step"]
-    ok2 = len(ms) == 1 and (dotted(ms[0].value.func) or "").endswith("min") and \
-        "max_steps" in norm(ms[0].value)
-    chk.add("M3", u, "num_steps <= min over process tensors of max_step", ok and ok2,
-            "" if ok and ok2 else "the shortest process tensor does not bound the number of steps")
-    rej = any(isinstance(st, ast.If) and "get_initial_tensor()" in norm(st.test)
-              and any(isinstance(b, ast.Raise) for b in st.body) for st in ast.walk(u.node))
+    # num_steps <= min over the collected max_step values
+    collected = [c for c in walk_local(u.node) if isinstance(c, ast.Call)
+                 and isinstance(c.func, ast.Attribute) and c.func.attr == "append" and c.args
+                 and isinstance(origin(du, du.node_of(c), c.args[0]), ast.Attribute)
+                 and origin(du, du.node_of(c), c.args[0]).attr == "max_step"
+                 and _is_elem_of(origin(du, du.node_of(c), c.args[0]).value, "process_tensor")]
+    bound_ok = False
+    if len(collected) == 1:
+        lst = dotted(collected[0].func.value)
+        for (c, o) in guards:
+            if isinstance(o, ast.Compare) and len(o.ops) == 1 and isinstance(o.ops[0], ast.LtE) \
+                    and any(isinstance(y, ast.Name) and y.id == "num_steps" for y in ast.walk(o.left)):
+                # right-hand side in source form: a minimum over the collected list
+                src = c.args[0].comparators[0]
+                e = expand(du, du.node_of(c), src, stop_names={lst})
+                bound_ok = isinstance(e, ast.Call) and (dotted(e.func) or "").split(".")[-1] in (
+                    "min", "amin") and any(isinstance(y, ast.Name) and y.id == lst
+                                           for y in ast.walk(e))
+    chk.add("M3", u, "num_steps <= min over process tensors of max_step", bound_ok,
+            "" if bound_ok else "the shortest process tensor does not bound the number of steps")
+    rej = False
+    for r in walk_local(u.node):
+        if isinstance(r, ast.Raise):
+            for (t, br) in branch_context(u.node, r):
+                o = origin(du, du.node_of(r) or du.cfg.entry, t) if du.node_of(r) is not None else t
+                if isinstance(o, ast.Compare) and len(o.ops) == 1 \
+                        and isinstance(o.ops[0], (ast.IsNot, ast.NotEq)) == br \
+                        and isinstance(o.left, ast.Call) and isinstance(o.left.func, ast.Attribute) \
+                        and o.left.func.attr == "get_initial_tensor" \
+                        and _is_elem_of(o.left.func.value, "process_tensor"):
+                    rej = True
     chk.add("M3", u, "process tensors with an initial tensor are rejected", rej)
 
 
@@ -191,29 +227,36 @@ def m4(prog: Program, chk: Check) -> None:
     chk.rule("M4", "the list position i of a process tensor is used only to select its own bond "
              "leg / cap / MPO (index i on both sides): necessary for independence of the order "
              "of the list", floor=4)
-    for q, pairs in ((f"{SD}:_get_caps", ("process_tensors[i]", "caps")),
-                     (f"{SD}:_get_pt_mpos", ("process_tensors[i]", "pt_mpos"))):
+    for q, getter in ((f"{SD}:_get_caps", "get_cap_tensor"), (f"{SD}:_get_pt_mpos", "get_mpo_tensor")):
         u = prog.unit(q)
-        chk.saw(u)
-        loop = [x for x in walk_local(u.node) if isinstance(x, ast.For)]
-        ok = len(loop) == 1 and norm(loop[0].iter) == "range(len(process_tensors))"
-        calls = [c for c in ast.walk(loop[0]) if isinstance(c, ast.Call)
-                 and isinstance(c.func, ast.Attribute) and c.func.attr in ("get_cap_tensor", "get_mpo_tensor")] if loop else []
-        ok = ok and len(calls) == 1 and norm(calls[0].func.value) == "process_tensors[i]" \
-            and norm(calls[0].args[0]) == "step"
-        app = [c for c in ast.walk(loop[0]) if isinstance(c, ast.Call) and method_call(c)
-               and method_call(c)[1] == "append"] if loop else []
-        ok = ok and len(app) == 1
+        du = DefUse(u, CFG(u.node, exc_edges=False))
+        chk.saw(u, du.cfg)
+        calls = [c for c in walk_local(u.node) if isinstance(c, ast.Call)
+                 and isinstance(c.func, ast.Attribute) and c.func.attr == getter]
+        app = [c for c in walk_local(u.node) if isinstance(c, ast.Call) and method_call(c)
+               and method_call(c)[1] == "append"]
+        ok = len(calls) == 1 and len(app) == 1
+        if ok:
+            recv = origin_text(du, du.node_of(calls[0]), calls[0].func.value)
+            arg = origin_text(du, du.node_of(calls[0]), calls[0].args[0]) if calls[0].args else ""
+            # entry i of the result comes from process tensor i (ascending list order), same step
+            ok = recv in ("process_tensors[ELEM(range(len(process_tensors)))]",
+                          "ELEM(process_tensors)") and arg == "step"
+            stored = origin(du, du.node_of(app[0]), app[0].args[0]) if app[0].args else None
+            ok = ok and stored is not None and any(
+                isinstance(y, ast.Call) and isinstance(y.func, ast.Attribute)
+                and y.func.attr == getter for y in ast.walk(stored))
         chk.add("M4", u, f"{q.split(':')[1]}: entry i from process_tensors[i] at the same step", ok,
                 "" if ok else "tensors are collected from a different list position / step")
     u = prog.unit(f"{SD}:_apply_pt_mpos")
+    du = DefUse(u, CFG(u.node, exc_edges=False))
     loops = [x for x in walk_local(u.node) if isinstance(x, ast.For)]
-    uses = [norm(x) for x in ast.walk(loops[0]) if isinstance(x, ast.Subscript)
-            and dotted(x.value) == "current_edges"] if loops else []
-    tgt = loops[0].target if loops else None
-    iv = tgt.elts[0].id if isinstance(tgt, ast.Tuple) else "?"
-    ok = set(uses) == {f"current_edges[{iv}]", "current_edges[-1]"}
-    chk.add("M4", u, f"_apply_pt_mpos touches {sorted(set(uses))}", ok,
+    uses = sorted({origin_text(du, du.node_of(x) if du.node_of(x) is not None else du.cfg.entry,
+                               x.slice)
+                   for x in (ast.walk(loops[0]) if loops else [])
+                   if isinstance(x, ast.Subscript) and dotted(x.value) == "current_edges"})
+    ok = len(uses) == 2 and "-1" in uses and any(t.startswith("INDEX(") for t in uses)
+    chk.add("M4", u, f"_apply_pt_mpos touches current_edges[{uses}]", ok,
             "MPO i meets bond leg i and the shared system leg only" if ok else
             "an MPO is connected to the bond leg of another environment")
     u = prog.unit(f"{SD}:_apply_caps")
